@@ -10,6 +10,12 @@ TRUST = ("Trusted base: the API-server / kubelet / cache models of internal/worl
 
 # id -> (cmd, category, technique, text, design_ref, note)
 CHECKS = {
+ "C08": ("c08", "model_checking", "explicit-state search over edit histories of the real reconciler + bounded-exhaustive template generator",
+         "All edit histories up to depth 5 (7 thorough) over template/replicas/slot/pause/label edits interleaved with reconcile and kubelet steps, from seeds including an engineered name collision, deduplicated by canonical state; after every successful reconcile the update revision must reproduce the template through the real ApplyRevision, known templates are re-used and renumbered on top, non-template edits never move it, colliding revisions are never overwritten. A reflective PodTemplateSpec generator feeds one set per template.", "4/C08", TRUST),
+ "C09": ("c09", "fault_enumeration", "exhaustive fault/crash-point enumeration over every API call of every explored state, with recovery-equivalence on the SCC graph",
+         "From every state of the progress closure of the seeds, every API call position of the reconcile x 7 fault kinds (error, lost response, conflict, concurrent delete, already-exists, crash before/after) is injected (pairs in thorough) and the recovery closure explored: failures are reported or absorbed, all safety monitors hold on partial and recovery reconciles, and the bottom SCCs reachable after the fault are quiescent goal states reachable without it.", "4/C09", TRUST),
+ "C18": ("c18", "model_checking", "bounded-exhaustive template enumeration against a reference encoder + explicit-state search over GC/reconcile interleavings after the real Upgrade",
+         "Byte identity of the revision data with the built-in encoding for every generated template (through the real Match); migrations of built-in sets at any point of a rollout: after the real Upgrade, all interleavings of reconciles, per-object garbage-collector orphaning and kubelet steps; no revision created, no pod deleted that the built-in controller would not delete, every bottom SCC has all revisions adopted and label-synced.", "4/C18", TRUST),
  "C06": ("c06", "model_checking", "bounded-exhaustive snapshot and single-fault enumeration of the real pod control, plus scale-in/out histories",
          "Set names x claim-template lists x per-claim presence (absent / API only / API+cache) x single faults on every claim create and lookup are each reconciled by the real controller; every created pod and claim is checked field by field and the order 'claims before pod' on the call log; scale-in/scale-out histories check that claims keep their identity.", "4/C06", TRUST),
  "C19": ("c19", "model_checking", "bounded-exhaustive input enumeration from a reflective generator against reference oracles",
